@@ -145,3 +145,106 @@ func TestVerif_C02_ConcurrentReceivers(t *testing.T) {
 		c02cRec.ClassIf(rewritten >= 2, "two_or_more_receivers_rewriting")
 	})
 }
+
+// ---------------------------------------------------------------------------------------------
+// Long sessions: the number of withheld packets is kept modulo 2^16 like everything else about sequence numbers, the
+// number of withheld frames modulo the picture-id space.  After exactly 65536 withheld packets a forwarded packet goes
+// out under its own source number again -- and still under a shifted picture id.
+
+var c02lRec = verifkit.New("TestVerif_C02_LongWithholding",
+	"one receiver limited to temporal layer 0 of a VP8 stream (7- or 15-bit picture ids, any start, one or two packets per frame, layer-1 frames with drawn frequency) that runs in "+
+		"order until between 65536 and 66500 packets have been withheld; the real rtpDownTrack.Write; oracle for every forwarded packet: number = source number - packets withheld "+
+		"before it (mod 2^16), picture id = source id - frames withheld before it (mod 2^7 | 2^15), payload identical; non-trivial = a packet was forwarded under its own source "+
+		"number while frames had been withheld (the count of withheld packets is a multiple of 65536); distinct by plan")
+
+func TestVerif_C02_LongWithholding(t *testing.T) {
+	defer c02lRec.Flush()
+	rapid.Check(t, func(t *rapid.T) {
+		bits := rapid.SampledFrom([]int{7, 15, 15}).Draw(t, "pidBits")
+		mask := uint16(1)<<bits - 1
+		up := newFabUpTrack(nil, "video/VP8", 90000, 64, nil)
+		down, cw := newCapDown("video/VP8", 90000, up, time.Hour)
+		down.setLayerInfo(layerInfo{tid: 0, wantedTid: 0, maxTid: 1})
+		e := 65536 + rapid.IntRange(0, 65535).Draw(t, "start")
+		pid := rapid.IntRange(0, int(mask)).Draw(t, "pid0")
+		npkMax := rapid.IntRange(1, 2).Draw(t, "packetsPerFrame")
+		upperOneIn := rapid.IntRange(2, 4).Draw(t, "upperLayerOneIn") // layer-1 frames: all but one in n
+		target := 65536 + rapid.IntRange(0, 964).Draw(t, "withheldAtTheEnd")
+		withheldPkts, withheldFrames := 0, 0
+		ownNumberWithShift := 0
+		atTheWrap := 0
+		tail := 0
+		var first uint16
+		started := false
+		for f := 0; withheldPkts < target+400 && f < 400000; f++ {
+			tid := uint8(1)
+			if f%upperOneIn == 0 {
+				tid = 0
+			}
+			if withheldPkts >= target {
+				tid = 0 // the tail: forwarded frames only
+				tail++
+				if tail > 300 {
+					break
+				}
+			}
+			if withheldPkts > 0 && withheldPkts%65536 == 0 && atTheWrap < 3 {
+				tid = 0 // a few frames are forwarded exactly when the count of withheld packets is a multiple of 2^16
+				atTheWrap++
+			}
+			// frames of one or two packets, so that the number of withheld frames is not tied to the number of withheld packets
+			npk := 1
+			if npkMax == 2 && f%3 == 1 && (tid == 0 || (withheldPkts+2)%65536 != 1) {
+				npk = 2
+			}
+			for i := 0; i < npk; i++ {
+				p := buildPkt(pktSpec{Codec: "video/VP8", E: e, TS: uint32(f) * 3000, PT: 96, Start: i == 0, End: i == npk-1, Marker: i == npk-1,
+					Key: f == 0, Tid: tid, VP8T: true, Pid: uint16(pid+f) & mask, PidBits: bits, Frame: f, Idx: i, BodyLen: 12})
+				if _, err := down.Write(append([]byte(nil), p.Raw...)); err != nil {
+					t.Fatalf("Write: %v", err)
+				}
+				caps := cw.take()
+				if tid > 0 {
+					if len(caps) != 0 {
+						t.Fatalf("C04: layer-1 packet %v forwarded to a receiver at layer 0", p)
+					}
+					withheldPkts++
+					e++
+					continue
+				}
+				if len(caps) != 1 {
+					t.Fatalf("C04/C01: in-order packet %v within the layer produced %d packets", p, len(caps))
+				}
+				c := caps[0]
+				if !started {
+					started, first = true, c.Hdr.SequenceNumber-uint16(e)+uint16(withheldPkts)
+				}
+				if want := uint16(e) - uint16(withheldPkts) + first; c.Hdr.SequenceNumber != want {
+					t.Fatalf("C01: packet %v forwarded as %d, want %d (%d packets withheld before it)", p, c.Hdr.SequenceNumber, want, withheldPkts)
+				}
+				var vp8 codecs.VP8Packet
+				body, err := vp8.Unmarshal(c.Payload)
+				if err != nil {
+					t.Fatalf("C02: forwarded packet does not parse: %v", err)
+				}
+				wantPid := (p.Pid - uint16(withheldFrames)) & mask
+				if vp8.PictureID&mask != wantPid {
+					t.Fatalf("C02: after %d withheld packets in %d withheld frames, source packet %d (picture id %d) was forwarded under number %d with picture id %d, want %d",
+						withheldPkts, withheldFrames, uint16(e), p.Pid, c.Hdr.SequenceNumber, vp8.PictureID&mask, wantPid)
+				}
+				if !bytes.Equal(body, p.body()) {
+					t.Fatalf("C02: payload changed for %v", p)
+				}
+				if c.Hdr.SequenceNumber == uint16(e) && uint16(withheldFrames)&mask != 0 && withheldPkts > 0 {
+					ownNumberWithShift++
+				}
+				e++
+			}
+			if tid > 0 {
+				withheldFrames++
+			}
+		}
+		c02lRec.Case(ownNumberWithShift > 0, fmt.Sprint(bits, npkMax, upperOneIn, target), map[string]any{"pid_bits": bits, "packets_per_frame_up_to": npkMax, "withheld_packets": withheldPkts, "withheld_frames": withheldFrames})
+		c02lRec.ClassN("forwarded_under_their_own_number_with_a_shifted_picture_id", ownNumberWithShift)
+	})
+}
